@@ -20,6 +20,7 @@ RULE = ("annotated simple networks: (a) clean motif networks from the harness bu
         "arbitrary annotations (jd[i] >= 1 on incident topologies), incl. a topology with a single edge or none, names with shared prefixes; half of the networks with vertices inserted in shuffled order and/or relabelled to non-contiguous ints; "
         "histories: 1..4 get_ejks() calls per extractor, up to 3 extractors interleaved over 1..2 graphs, plus the overall-degree variant; 20% of the extractors are given only a prefix of the topology names (the excess tuples keep every slot); in 30% of the repeat calls the network is rewired in place (degree-preserving double edge swaps inside one topology) between two extractions; "
         "non-trivial = a history with >= 2 calls on one extractor and >= 2 distinct excess classes; distinct = SHA-1 of the annotated graph + history")
+RULE += "; round m: the extractor's public steps used one by one (count_edge_types() once or twice, then get_ejk for one topology) after 30% of the extractions"
 ASSUMPTIONS = ["matrix entries compared at 1e-12; an absent key means 0", "the law is stated in terms of the vertex annotation, so arbitrary annotations are in scope"]
 HEADLINE = ["histories", "get_ejks_calls", "hook_hits", "matrices_compared", "entries_compared", "repeat_calls", "self_paired_entries", "overall_variant_checks",
             "arbitrary_annotation", "builder_networks", "single_edge_topology", "in_place_rewirings", "scrambled_vertex_order_or_labels", "extractors_with_a_prefix_of_the_names", "overall_variant_hub_graphs", "extractions_aborted_by_injected_fault", "tight_stack_extractions_completed"]
